@@ -7,7 +7,7 @@ From C33 Require Export Lib.Harness C19.Model C19.ModelTx C19.SpecTx.
 Import ListNotations.
 Open Scope Z_scope.
 
-Inductive sgtI := SGT (k : N) (ty : Z) (okv : bool).
+Inductive sgtI := SGT (k : N) (ty : Z) (okv fok : bool).
 Inductive txI := TX (t : N) (s : shape).
 Inductive obI := OB (x t : N).
 Inductive tcfgI := TCfg (cry : list (N * (bool * Z))) (sigs : list sgtI)
@@ -17,7 +17,13 @@ Inductive tobsI := TOb (o : top) (hist : tans) (fresh : list tans).
 Fixpoint sgt_find (k : N) (l : list sgtI) : option (Z * bool) :=
   match l with
   | [] => None
-  | SGT k' ty okv :: tl => if N.eqb k k' then Some (ty, okv) else sgt_find k tl
+  | SGT k' ty okv _ :: tl => if N.eqb k k' then Some (ty, okv) else sgt_find k tl
+  end.
+
+Fixpoint sgt_fok (k : N) (l : list sgtI) : bool :=
+  match l with
+  | [] => false
+  | SGT k' _ _ fok :: tl => if N.eqb k k' then fok else sgt_fok k tl
   end.
 
 Fixpoint tx_find (t : N) (l : list txI) : shape :=
@@ -36,7 +42,7 @@ Fixpoint ob_find (x : N) (l : list obI) : N :=
 Definition tcfg_of (c : tcfgI) : tconfig :=
   match c with
   | TCfg cry sigs chain strict bcheck gpara txs objs =>
-      mkTc cry (fun k => sgt_find k sigs) chain strict bcheck gpara
+      mkTc cry (fun k => sgt_find k sigs) (fun k => sgt_fok k sigs) chain strict bcheck gpara
            (fun t => tx_find t txs) (fun x => ob_find x objs)
   end.
 
